@@ -361,6 +361,82 @@ func c01Cross(chk *fw.Check) int {
 			n++
 			w.Cleanup()
 		})
+		// (6) issuers whose names are not in the order / made of the attributes a name builder would produce: the listed
+		// certificate is found under the name as it is encoded
+		for shape := 1; shape < len(c06Values[dIssuer]); shape++ {
+			for _, source := range []string{"crl_files", "cdp"} {
+				shape, source := shape, source
+				name := c06Values[dIssuer][shape]
+				seqWorld(func() {
+					ca := world.Issue(p.Root, world.CertOpt{CN: "c01 issuer " + name, RawSubject: c06Issuer(shape, 0), IsCA: true, KeyKind: "ec", KeyIdx: 6, Serial: big.NewInt(int64(640 + shape))})
+					net := world.NewNet()
+					dir, files := FreshDir("c01n"), FreshDir("c01nf")
+					defer os.RemoveAll(dir)
+					defer os.RemoveAll(files)
+					doc := world.SimpleCRL(ca, 1, 641).DER()
+					storage := "memory"
+					if disk {
+						storage = "disk"
+					}
+					cfg := &config.CRLConfig{WorkDir: dir, StorageType: storage, TrustedSignatureCertsFiles: []string{WritePEM(files, "ca.pem", ca.Cert)}}
+					var cdp []string
+					if source == "cdp" {
+						cdp = []string{c01CRLURL}
+						net.Serve(c01CRLURL, "list", doc)
+					} else {
+						f := filepath.Join(files, "list.crl")
+						os.WriteFile(f, doc, 0644)
+						cfg.CRLFiles = []string{f}
+					}
+					w := NewTW(TWOpt{Mode: "crl_only", Net: net, CRL: cfg})
+					if err := w.Provision(); err != nil {
+						chk.Violation("C01|premise|provision-failed", "issuer shape "+name+": "+err.Error(), nil)
+						return
+					}
+					vsched.Drain()
+					un := world.Issue(ca, world.CertOpt{CN: "c01 n", Serial: big.NewInt(642), KeyKind: "ec", KeyIdx: 5, CDP: cdp})
+					if v := w.Handshake(world.Chain(un, ca, p.Root)); v.Rejected() {
+						chk.Violation("C01|premise|unlisted-rejected", fmt.Sprintf("issuer shape %s: an unlisted certificate is rejected: %s %s", name, v, v.Err), nil)
+						return
+					}
+					l := world.Issue(ca, world.CertOpt{CN: "c01 n", Serial: big.NewInt(641), KeyKind: "ec", KeyIdx: 5, CDP: cdp})
+					if v := w.Handshake(world.Chain(l, ca, p.Root)); !v.Rejected() {
+						chk.Violation("C01|listed-accepted|issuer-name="+name+"|source="+source+"|"+be(disk), fmt.Sprintf("the CRL of issuer %q lists serial 641; the certificate with that serial of that issuer was accepted", ca.Cert.Subject.String()), nil)
+					}
+					n++
+					w.Cleanup()
+				})
+			}
+		}
+		// (7) crl_urls and crl_files configured together: both lists are enforced
+		seqWorld(func() {
+			net := world.NewNet()
+			dir, files := FreshDir("c01m"), FreshDir("c01mf")
+			defer os.RemoveAll(dir)
+			defer os.RemoveAll(files)
+			net.Serve(c01CRLURL, "url-list", world.SimpleCRL(p.CA, 1, 651).DER())
+			f := filepath.Join(files, "file.crl")
+			os.WriteFile(f, world.SimpleCRL(p.CA, 2, 652).DER(), 0644)
+			storage := "memory"
+			if disk {
+				storage = "disk"
+			}
+			w := NewTW(TWOpt{Mode: "crl_only", Net: net, CRL: &config.CRLConfig{WorkDir: dir, StorageType: storage, CRLUrls: []string{c01CRLURL}, CRLFiles: []string{f},
+				TrustedSignatureCertsFiles: []string{WritePEM(files, "ca.pem", p.CA.Cert)}}})
+			if err := w.Provision(); err != nil {
+				chk.Violation("C01|premise|provision-failed", "crl_urls + crl_files: "+err.Error(), nil)
+				return
+			}
+			vsched.Drain()
+			for _, serial := range []int64{651, 652} {
+				l := world.Issue(p.CA, world.CertOpt{CN: "c01 m", Serial: big.NewInt(serial), KeyKind: "ec", KeyIdx: 5})
+				if v := w.Handshake(world.Chain(l, p.CA, p.Root)); !v.Rejected() {
+					chk.Violation("C01|listed-accepted|cross=crl_urls-and-crl_files-together|"+be(disk), fmt.Sprintf("crl_urls and crl_files configured together: serial %d (listed in the %s list) was accepted", serial, map[int64]string{651: "url", 652: "file"}[serial]), nil)
+				}
+				n++
+			}
+			w.Cleanup()
+		})
 		// (5) a list in force stays in force when a later refresh obtains something which is not accepted
 		bad := world.SimpleCRL(p.CA, 2, 631)
 		bad.BadSig = true
